@@ -252,6 +252,9 @@ Definition spec_ok (c : case) : bool :=
                            end) datas
       (* capacity *)
       && nodup_keys datas && shard_caps_ok total datas && (len1 <=? Z.of_nat total) && (len2 <=? len1)
+      (* every entry is the page of exactly one key of the case (the cache started empty and [datas] lists
+         every key the programs use): no key twice in a shard, no orphaned entry *)
+      && (len1 =? Z.of_nat (length (filter (fun p => match snd p with Some _ => true | None => false end) datas)))
       (* the cache emptied: accounting back to where it started *)
       && (len3 =? 0) && (used3 =? c0)
   end.
